@@ -48,7 +48,7 @@ def unobserved_paths(h, cfg):
 
 
 def program_strategy(cfg, cache):
-    return gen.mixed_program(cfg, cache)
+    return gen.mixed_program(cfg, cache, ancestor=False)
 
 
 def drive(draw, h, cfg):
